@@ -220,7 +220,13 @@ static std::atomic<long> seqno{0};
 static void thread_case(vh::Rng& r, int nthreads, int iters) {
    // points: per thread its own list, plus shared const models
    std::vector<std::vector<Pt>> pts(nthreads);
-   for (int t = 0; t < nthreads; ++t) for (int k = 0; k < iters; ++k) pts[t].push_back(gen_point(r));
+   for (int t = 0; t < nthreads; ++t) for (int k = 0; k < iters; ++k) {
+      Pt p = gen_point(r);
+      // the points that go through convert_to_onshell (k % 3 == 0) are MSSM points of the hard kind in every thread, so that the rarely executed
+      // fallback code (root finder for me2) runs in several threads of the same case
+      if (k % 3 == 0) { p.mssm = true; p.mp.tb = r.LU(20, 60); p.mp.mu = r.sign() * r.LU(1000, 3000); p.mp.ml[1] = r.LU(200, 1500); p.mp.me[1] = p.mp.ml[1] * (1 + r.U(-0.03, 0.03)); }
+      pts[t].push_back(p);
+   }
    std::vector<std::vector<Vec>> seq(nthreads, std::vector<Vec>(iters)), par(nthreads, std::vector<Vec>(iters));
    std::vector<std::vector<char>> okseq(nthreads, std::vector<char>(iters)), okpar(nthreads, std::vector<char>(iters));
    for (int t = 0; t < nthreads; ++t) for (int k = 0; k < iters; ++k) okseq[t][k] = eval_point(pts[t][k], seq[t][k], k % 3 == 0);
